@@ -277,10 +277,37 @@ def fclose(a, b, scale):
     return close(a, b, rtol=1e-9, atol=1e-12 * float(scale) + 1e-300)
 
 
-def poly_equal(a, b):
-    """polynomial identity a == b: exact for rational coefficients; where a float stoichiometric coefficient made sympy
-    compute in floating point (coef_type 'float' times a non-dyadic constant) coefficient-wise with relative tolerance 1e-9"""
+def _rational_powers(e):
+    """float exponents (0.5, 1.5, ...) written as rationals; fractional powers y**(p/q) of symbols turned into integer powers by
+    the exact substitution y = z**q with a fresh positive symbol z (q = lcm of the denominators)"""
     import sympy
+    from math import lcm
+    e = sympy.sympify(e)
+    e = e.replace(lambda t: t.is_Pow and t.exp.is_Float, lambda t: sympy.Pow(t.base, sympy.nsimplify(t.exp, rational=True)))
+    return e
+
+
+def _unroot(a, b):
+    import sympy
+    from math import lcm
+    a, b = _rational_powers(a), _rational_powers(b)
+    dens = {}
+    for t in (a.atoms(sympy.Pow) | b.atoms(sympy.Pow)):
+        if t.base.is_Symbol and t.exp.is_Rational and not t.exp.is_Integer:
+            dens[t.base] = lcm(dens.get(t.base, 1), int(t.exp.q))
+    if not dens:
+        return a, b
+    sub = {y: sympy.Symbol('z_' + y.name, positive=True) ** q for y, q in dens.items()}
+    return sympy.powdenest(a.subs(sub), force=True), sympy.powdenest(b.subs(sub), force=True)
+
+
+def poly_equal(a, b):
+    """identity a == b of the generated right-hand sides: exact for rational coefficients; rational reaction orders p/q are
+    removed first by the exact substitution y = z**q (z > 0), after which both sides are polynomials; where a float
+    stoichiometric coefficient made sympy compute in floating point (coef_type 'float' times a non-dyadic constant) the
+    coefficients are compared with relative tolerance 1e-9"""
+    import sympy
+    a, b = _unroot(a, b)
     d = sympy.expand(a - b)
     if d == 0:
         return True
@@ -290,7 +317,10 @@ def poly_equal(a, b):
     gens = sorted(a.free_symbols | b.free_symbols, key=str)
     if not gens:
         return abs(float(a) - float(b)) <= 1e-9 * max(1.0, abs(float(a)), abs(float(b)))
-    pa, pb = dict(sympy.Poly(a, *gens).terms()), dict(sympy.Poly(b, *gens).terms())
+    try:
+        pa, pb = dict(sympy.Poly(a, *gens).terms()), dict(sympy.Poly(b, *gens).terms())
+    except sympy.PolynomialError:
+        return False
     for m in set(pa) | set(pb):
         x, y = float(pa.get(m, 0)), float(pb.get(m, 0))
         if abs(x - y) > 1e-9 * max(1.0, abs(x), abs(y)):
@@ -472,7 +502,7 @@ class C04(Property):
             'reactions, substances in no reaction), each rate parameter one of: plain number, MassAction([k]), MassAction([k], '
             'unique_keys=[uk]), string key, MassAction([Symbol(uk)]); unique keys drawn from a pool with shared prefixes (k1, k10, k1_), '
             'sometimes shared between reactions; the SAME MassAction object as param of several reactions (20 %), reactions derived with '
-            'Reaction.copy(reac=...) (10 %); 10 % oracle-only cases with non-integral coefficients; constants int / Fraction / sympy.Rational; 15 % histories over ONE ReactionSystem '
+            'Reaction.copy(reac=...) (10 %); 10 % oracle-only cases with non-integral coefficients (products / inactive parts, and rational active orders p/q); constants int / Fraction / sympy.Rational; 15 % histories over ONE ReactionSystem '
             'object (build, then set rxn.param / replace / append (list, +=) / delete / permute reactions / sort_substances_inplace, '
             'build again with either entry point and any configuration, expected value from the CURRENT public state); configurations: get_odesys with '
             'include_params True/False x passive substitutions (subset of keys, CSTR keys, unknown key) x cstr, _create_odesys with '
@@ -503,9 +533,12 @@ class C04(Property):
         'the order of the CSTR keys inside param_names (a Python set): compared as a set, no theorem',
         'linear_invariants handed to SymbolicSys (C05) and variables[\'time\']: not part of the model',
         'when _create_odesys accepts: inversion lemma only (buildRhs\'_ok), no success characterisation like get_odesys_accepts',
-        'non-integral stoichiometric coefficients (e.g. H2O2 -> H2O + 1/2 O2 with the all_integral check omitted): the Lean model\'s '
-        'coefficients are natural numbers (C03\'s Model/Kinetics.lean, not editable here); covered by the oracle only (10 % of the cases: '
-        'Fraction / exact-float coefficients in products and inactive parts, both builders, all configurations)',
+        'non-integral stoichiometric coefficients, with the all_integral check omitted: (a) products / inactive parts (H2O2 -> H2O + 1/2 O2), '
+        '(b) rational ACTIVE reaction orders p/q (H2 + 1/2 Br2 (+ 1/2 Br2) -> 2 HBr: rate k*[H2]*[Br2]^(1/2)). The Lean model keeps NATURAL '
+        'coefficients (C03\'s Model/Kinetics.lean: exponents must be naturals for c^nu to stay in a ring; the polynomial model has no roots), '
+        'so both classes are decided by the oracle only (10 % of the cases: Fraction / exact-float coefficients, both builders, all '
+        'configurations; for (b) the exact substitution y = z^q before the polynomial comparison and f_cb / rate_exprs_cb at positive '
+        'perfect-power points)',
         'aliasing of Python objects (one rate-expression object as param of several reactions, reactions derived with Reaction.copy): the '
         'model sees values only; that object identity does not matter is decided by correspondence + oracle (share / from_copy streams)',
         'statelessness across histories (build, mutate rxn.param / rsys.rxns / substance order on the same objects, build again): the '
@@ -554,8 +587,12 @@ class C04(Property):
                 rxns[j]['param'] = dict(rxns[i]['param'])
 
     def _fractional(self, rng, tier):
-        """non-integral stoichiometric coefficients (products / inactive parts; reaction orders stay integral so that the rate is a
-        polynomial): oracle only — the Lean model's coefficients are natural numbers"""
+        """non-integral stoichiometric coefficients, oracle only (the Lean model's coefficients are natural numbers):
+        (a) in products / inactive parts (orders integral, the rate stays a polynomial);
+        (b) rational ACTIVE orders p/q in `reac` (alone, or with a compensating inactive reactant as in
+            H2 + 1/2 Br2 (+ 1/2 Br2) -> 2 HBr): the rate is a polynomial in y^(1/q); the oracle substitutes y = z^q, and the
+            numeric callbacks are evaluated at positive perfect-q-th-power points."""
+        from math import lcm
         for _ in range(50):
             c = self._gen_one(rng, tier)
             if c['rxns'] and clean(c):
@@ -566,11 +603,31 @@ class C04(Property):
         if c['num'] == 'int':
             c['num'] = 'Fraction'
         vals = [[1, 2], [3, 2], [5, 2], [1, 4]] + ([[1, 3], [2, 3]] if c['coef_type'] == 'Fraction' else [])
+        orders = rng.random() < 0.55 and any(s['reac'] for s in c['rxns'])
         done = False
+        if orders:
+            q = 1
+            for s in c['rxns']:
+                for kv in s['reac']:
+                    if rng.random() < 0.5 or not done:
+                        kv[1] = rng.choice(vals)
+                        q = lcm(q, kg.frac(kv[1]).denominator)
+                        done = True
+                        if rng.random() < 0.4:                           # compensating inactive reactant: total order integral
+                            comp = rat_json(1 - (kg.frac(kv[1]) % 1))
+                            ir = dict((k, v) for k, v in s['inact_reac'])
+                            ir[kv[0]] = comp
+                            s['inact_reac'] = [[k, v] for k, v in ir.items()]
+            # positive perfect q-th powers for every concentration
+            pt = dict((k, v) for k, v in c['point'])
+            for k in c['subst']:
+                pt[k] = rat_json(Fraction(rng.randint(1, 3), rng.randint(1, 2)) ** q)
+            c['point'] = [[k, v] for k, v in pt.items()]
+            c['orders'] = True
         for s in c['rxns']:
-            for part_ in ('prod', 'inact_prod', 'inact_reac'):
+            for part_ in ('prod', 'inact_prod') + (() if orders else ('inact_reac',)):
                 for kv in s[part_]:
-                    if rng.random() < 0.5:
+                    if rng.random() < (0.2 if orders else 0.5):
                         kv[1] = rng.choice(vals)
                         done = True
         if not done:
@@ -1012,7 +1069,8 @@ class C04(Property):
         if c.get('op') == 'history':
             return 'history:' + '+'.join(sorted({x['do'] for x in c['steps'] if x['do'] != 'build'})) + (':alias' if c.get('alias') else '')
         if c.get('kind') == 'fractional':
-            return 'fractional:%s:%s%s' % (c['coef_type'], c['builder'], ':cstr' if c['cstr'] else '')
+            return 'fractional:%s%s:%s%s%s' % (c['coef_type'], ':orders' if c.get('orders') else '', c['builder'],
+                                               (':inl' if c['include_params'] else ':free') * (c['builder'] == 'get'), ':cstr' if c['cstr'] else '')
         if c.get('op') != 'build':
             return str(c.get('op'))
         kinds = ''.join(sorted(set(s['param']['kind'][0] for s in c['rxns'])))
